@@ -49,6 +49,12 @@ PcfPanics(t) ==
     [] t.j = "str" -> FALSE
     [] OTHER -> TRUE
 
+RECURSIVE HasDefaultKey(_)
+HasDefaultKey(t) ==
+  CASE t.j = "obj" -> \E i \in 1..Len(t.kv) : t.kv[i][1] = "default" \/ HasDefaultKey(t.kv[i][2])
+    [] t.j = "arr" -> \E i \in 1..Len(t.items) : HasDefaultKey(t.items[i])
+    [] OTHER -> FALSE
+
 (* a number beyond i64 inside a field default *)
 RECURSIVE HasIntOverI64(_), HasDefaultIntOverI64(_)
 HasIntOverI64(t) ==
@@ -66,8 +72,10 @@ Explains(e, tree, c, p) ==
   {id \in KnownIds :
      \/ /\ id = "C11-canonical-form-panics-on-unexpected-attribute-kind"
         /\ p.out = "panic" /\ p.kind \in {"called-option-unwrap-on-a", "only-valid-schemas-are-accepted", "got-invalid-json-value-for"}
-        /\ p.op \in {"canonical_form", "fingerprint_rabin", "fingerprint_md5", "fingerprint_sum"}
         /\ e.json /\ PcfPanics(tree)
+        /\ \/ p.op \in {"canonical_form", "fingerprint_rabin", "fingerprint_md5", "fingerprint_sum"}
+           \* the parser itself renders the canonical form of a field's schema into the message of a rejected default
+           \/ p.op \in Apis /\ HasDefaultKey(tree)
      \/ id = "C11-duplicate-fullname-accepted" /\ c = "C11:accepted-duplicate-fullname"
      \/ id = "C11-primitive-name-accepted" /\ c = "C11:accepted-primitive-name-redefined"
      \/ id = "C11-fixed-default-length-unchecked" /\ c = "C11:accepted-default-fixed-wrong-length"
@@ -77,9 +85,6 @@ Explains(e, tree, c, p) ==
      \/ id = "C11-non-object-field-skipped" /\ c = "C11:accepted-field-not-object"
      \/ id = "C11-integer-default-over-i64-rejected"
           /\ c = "C11:rejected-wellformed:json-number-could-not" /\ HasDefaultIntOverI64(tree)
-     \/ id = "C11-named-type-without-body-is-backreference"
-          /\ c \in {"C11:accepted-missing-size", "C11:accepted-missing-symbols", "C11:accepted-missing-fields"}
-          /\ "duplicate-fullname" \in WF(tree).bad
   }
 
 NoPost == [out |-> "", kind |-> "", op |-> ""]
@@ -91,7 +96,7 @@ Judge(e) ==
       tree == IF e.json THEN Dedup(e.tree, TRUE) ELSE e.tree
       W == IF e.json THEN WF(e.tree) ELSE [verdict |-> "none", bad |-> {}, grey |-> {}, names |-> {}]
       (* totality: pairs <<clause, post-record or NoPost>> *)
-      crashP == {<<"C11:" \o a \o "-" \o out(a), NoPost>> : a \in {a \in Apis : out(a) \in Crash}}
+      crashP == {<<"C11:" \o a \o "-" \o out(a), [out |-> out(a), kind |-> e.parse[a].kind, op |-> a]>> : a \in {a \in Apis : out(a) \in Crash}}
       crashO == {<<"C11:post-" \o e.post[i].out \o ":" \o e.post[i].op, e.post[i]>>
                    : i \in {i \in 1..Len(e.post) : e.post[i].out \in Crash}}
       accF == IF W.verdict = "bad" /\ acc # {} THEN {<<"C11:accepted-" \o r, NoPost>> : r \in W.bad} ELSE {}
